@@ -106,6 +106,17 @@ Definition ge_of (c : option comparison) : bool := match c with Some Gt | Some E
 (* ---------------- weekday (date.rs weekday via chrono) ---------------- *)
 Definition weekday_orig (a : date) : option Z :=
   let '(y, m, d) := a in if chrono_date y m d then Some (weekday y m d) else None.
+(* after the fix: FeelDate::weekday computes the day number itself on i64 (year.div_euclid(400), the other
+   divisions have non-negative operands for a month 1..12; Rust `/` truncates, hence Z.quot) *)
+Definition days_impl (a : date) : Z :=
+  let '(y0, m, d) := a in
+  let y := y0 - (if m <=? 2 then 1 else 0) in
+  let era := y / 400 in
+  let yoe := y - era * 400 in
+  let doy := Z.quot (153 * (if 2 <? m then m - 3 else m + 9) + 2) 5 + d - 1 in
+  let doe := yoe * 365 + Z.quot yoe 4 - Z.quot yoe 100 + doy in
+  era * 146097 + doe - 719468.
+Definition weekday_impl (a : date) : option Z := Some (Z.modulo (days_impl a + 3) 7 + 1).
 (* Spec *)
 Definition weekday_spec (a : date) : option Z := let '(y, m, d) := a in Some (weekday y m d).
 
